@@ -231,7 +231,7 @@ def check_call_args(rq, r, group):
                 return "method", e
             if e[5] != sent_headers:
                 return "headers_seen", e
-            if e[6] != (body or ""):
+            if e[6] is not None and e[6] != (body or ""):
                 return "body_seen", e
             if e[7] != expected_addr(r["client"]):
                 return "client_address", e
@@ -818,6 +818,9 @@ def gen_c20_http(rng, tier, mult=1):
             for steps in itertools.product(alphabet, repeat=n):
                 yield {"proto": "http", "kind": "lifecycle", "bind": bind, "mode": "seq", "steps": list(steps),
                        "_meta": {"kind": "c20-http/seq"}}
+    for steps in (["start", "stop"], ["start", "stop", "stop", "start", "stop"], ["start", "start", "stop"]):
+        yield {"proto": "http", "kind": "lifecycle", "bind": "::1", "mode": "seq", "steps": steps, "idle_client": True,
+               "_meta": {"kind": "c20-http/seq-idle-client"}}
     for steps in (["start_blocked"], ["start_blocked", "start"], ["start", "stop", "start_blocked", "start"],
                   ["start_blocked", "stop", "start", "stop"], ["start", "start_blocked", "stop"]):
         yield {"proto": "http", "kind": "lifecycle", "bind": "::1", "mode": "seq", "steps": steps,
